@@ -686,7 +686,7 @@ class WLSim(object):
                 if j == 0:
                     continue                      # running check / iteration counter: numbering is not part of the statement
                 tol = 0.0 if exact else tok_tol(tok) + 1e-9 * abs(x)
-                if abs(v - x) > tol:
+                if not abs(v - x) <= tol:
                     self.viol("log_disagrees", name + "_value", "%s row %d column %d reads %s, bookkeeping gives %r" % (name, i + 1, j, tok, x))
         setattr(self, "_cmp_" + name, len(disk))
         if strict and len(disk) != len(model):
@@ -739,7 +739,7 @@ class WLSim(object):
                 self.viol("output_disagrees", name + "_rows", "%s has %d rows, expected %d" % (name, len(rows), len(want)))
             if strict:
                 for r, w in zip(rows, want):
-                    if len(r) != 2 or abs(r[0][1] - w[0]) > tok_tol(r[0][0]) + 1e-12 or abs(r[1][1] - w[1]) > tok_tol(r[1][0]) + 1e-9 * abs(w[1]):
+                    if len(r) != 2 or not abs(r[0][1] - w[0]) <= tok_tol(r[0][0]) + 1e-12 or not abs(r[1][1] - w[1]) <= tok_tol(r[1][0]) + 1e-9 * abs(w[1]):
                         self.viol("output_disagrees", name + "_value", "%s row %r, bookkeeping gives centre %r log-density %r" % (name, [t for t, _ in r], w[0], w[1]))
         # histogram_bins: all centres, then the centres of the range
         rows = [r for r in parse_rows(self.complete(self.text("histogram_bins.txt"), strict)) if numeric(r)]
@@ -747,7 +747,7 @@ class WLSim(object):
         if len(rows) > len(want) or (strict and len(rows) != len(want)):
             self.viol("output_disagrees", "histogram_bins_rows", "histogram_bins.txt has %d rows, expected %d centres + %d centres of the range" % (len(rows), m.M, m.b - m.a))
         for r, w in zip(rows, want):
-            if len(r) != 1 or abs(r[0][1] - w) > tok_tol(r[0][0]) + 1e-12:
+            if len(r) != 1 or not abs(r[0][1] - w) <= tok_tol(r[0][0]) + 1e-12:
                 self.viol("output_disagrees", "histogram_bins_value", "histogram_bins.txt row %r, expected centre %r" % ([t for t, _ in r], w))
         # seqlog: every row carries a rearrangement of the input and its true kappa
         for r in parse_rows(self.complete(self.text("seqlog.txt"), strict)):
@@ -755,7 +755,7 @@ class WLSim(object):
                 s = r[1][0]
                 if sorted(s) != self.input_sorted:
                     self.viol("log_disagrees", "seqlog_sequence", "seqlog row %r is not a rearrangement of the input" % s)
-                if abs(r[0][1] - self.kappa(s)) > tok_tol(r[0][0]) + 1e-9:
+                if not abs(r[0][1] - self.kappa(s)) <= tok_tol(r[0][0]) + 1e-9:
                     self.viol("log_disagrees", "seqlog_kappa", "seqlog gives kappa %s for %s, its kappa is %r" % (r[0][0], s, self.kappa(s)))
 
     @staticmethod
@@ -799,7 +799,7 @@ class WLSim(object):
             for j, i in enumerate(range(m.a, m.b)):
                 inc = gvals[i] - prev[i]
                 tol = 2 * tok_tol(gr[1 + i][0]) + 1e-9 * abs(gvals[i])
-                if abs(inc - lnf * last[j]) > tol:
+                if not abs(inc - lnf * last[j]) <= tol:
                     self.viol("log_disagrees", "increments", "iteration %d bin %d: g grew by %r in glog, ln f x final histogram = %r x %r" % (k + 1, i, inc, lnf, last[j]))
             prev = gvals
 
